@@ -5,10 +5,11 @@ From CgreenVerif.Gen Require Import Facts.
 Import ListNotations.
 Local Open Scope N_scope.
 
-(* the specification symbol of a test gives back its context and name, for all identifiers
-   without "__" inside and without '_' at the end (the guard is necessary: parse_needs_wf_refuted) *)
+(* the specification symbol of a test gives back its context and name, for EVERY test name (also
+   one that contains "__" or ends in '_') and for context names without "__" inside and without
+   '_' at the end (that guard is necessary: parse_needs_wf_refuted) *)
 Theorem C09_names_recovered_from_symbols : forall ctx name,
-  wf_name ctx = true -> wf_name name = true -> parse_spec (mangle ctx name) = (ctx, name).
+  wf_name ctx = true -> parse_spec (mangle ctx name) = (ctx, name).
 Proof. exact parse_mangle. Qed.
 Print Assumptions C09_names_recovered_from_symbols.
 
